@@ -1,52 +1,140 @@
 #![allow(dead_code, deprecated)]
 //! C18 — concurrent first use and interleaving of instances.
 //!
-//! `conc`   orchestrator: (1) starts `ref` in a separate single-threaded process to obtain the
-//!          sequential one-at-a-time results; (2) starts `--procs` COLD worker processes
-//!          (re-exec of this binary), each with T in {2,3,4,8,16,32,64} threads released by a
-//!          barrier whose very first calls go into the algorithms (Groestl first), and compares
-//!          every thread's every result with the reference; (3) runs random interleavings of
-//!          update/apply operations over several instances in one thread against the same
-//!          instances run one at a time.
-//! `worker` one cold process. `ref` the sequential reference.
+//! `conc`   orchestrator:
+//!          (1) reference = every algorithm run in a process OF ITS OWN (`ref --which cold|hammer --index j`,
+//!              single-threaded, nothing else ever ran in that process); two whole-sequence single-threaded
+//!              processes (all algorithms one after the other, forwards and backwards) are compared with it:
+//!              a result that depends on what ran before in the process/thread differs there without any thread;
+//!          (2) `--procs` COLD worker processes (re-exec of this binary), each with T in {2,3,4,8,16,32,64}
+//!              threads released by a barrier whose very first calls go into the algorithms (Groestl first),
+//!              followed by a hammer phase (short operations, construction-dominated, all threads on the same
+//!              families at the same time); every result of every thread is compared with the reference;
+//!          (3) random interleavings of update / apply / seek / reset / clone / finalize_reset operations over
+//!              several instances in one thread, against the same instances run one at a time in this process
+//!              AND one at a time in a separate process (`ref-rounds`: rounds and instances in the opposite
+//!              order, unrelated cipher traffic between two instances).
+//! What shares what (the trigger conditions an audit found missing): all ChaCha type aliases get the SAME key
+//! and nonce prefix (and a `-otherkey` twin: other key, same nonce, same seek positions); every Skein state
+//! size is used with several output sizes N in one process (16..128 bytes, colliding in N/32 and in
+//! trailing_zeros(N)); streams seek into the middle of shared blocks; hashers are cloned, reset and
+//! finalize_reset in the middle of other instances' work.
+//! `worker` one cold process. `ref` / `ref-rounds` the references.
 #[path = "../util.rs"]
 mod util;
 use util::*;
 
 use cipher::generic_array::GenericArray;
-use cipher::{BlockEncrypt, NewCipher, StreamCipher};
-use digest::generic_array::typenum::{U128, U32, U64};
-use digest::{FixedOutput, Update};
+use cipher::{BlockEncrypt, NewCipher, StreamCipher, StreamCipherSeek};
+use digest::generic_array::typenum::{U128, U16, U20, U24, U28, U32, U48, U64};
+use digest::{FixedOutput, Reset, Update};
 use std::collections::{BTreeMap, HashSet};
 use std::sync::{Arc, Barrier};
 
 const VARIANTS: usize = 4;
+/// every stream cipher type takes key and nonce from the same message
+const FAM_STREAM: usize = 1000;
 
-fn msg(j: usize, v: usize, seed: u64) -> Vec<u8> {
-    let mut r = Rng::new(seed ^ ((j as u64) << 20) ^ ((v as u64) << 8) ^ 0xc18);
-    let mut m = vec![0u8; 150 + 61 * v + 7 * j + if v == 3 { 2100 } else { 0 }];
+fn msg(fam: usize, v: usize, seed: u64) -> Vec<u8> {
+    let mut r = Rng::new(seed ^ ((fam as u64) << 20) ^ ((v as u64) << 8) ^ 0xc18);
+    let mut m = vec![0u8; 150 + 61 * v + 7 * (fam % 64) + if v == 3 { 2100 } else { 0 }];
     r.fill(&mut m);
     m
 }
 
-fn hash_one<H: Update + FixedOutput + Default>(m: &[u8]) -> Vec<u8> {
+/// results longer than 96 bytes are reported as a 128-bit fingerprint (two FNV-1a lanes; equality is all that is used)
+fn fp(b: &[u8]) -> String {
+    if b.len() <= 96 {
+        return hex(b);
+    }
+    let (mut a, mut c) = (0xcbf2_9ce4_8422_2325u64, 0x8422_2325_cbf2_9ce4u64 ^ b.len() as u64);
+    for &x in b {
+        a = (a ^ x as u64).wrapping_mul(0x0000_0100_0000_01b3);
+        c = (c ^ x as u64).wrapping_mul(0x0000_0100_0000_01b3).rotate_left(29) ^ a;
+    }
+    format!("fp{:016x}{:016x}len{}", a, c, b.len())
+}
+
+trait Hs: Update + FixedOutput + Reset + Clone + Default {}
+impl<T: Update + FixedOutput + Reset + Clone + Default> Hs for T {}
+
+/// digest of m four ways: straight (two updates: block buffer, then whole blocks directly) ended by
+/// finalize_reset; the reset object reused on the tail; a clone taken mid-message; a dirty object reset
+fn hash_one<H: Hs>(m: &[u8]) -> Vec<u8> {
     let mut h = H::default();
-    // two updates: one goes through the block buffer, one feeds whole blocks directly
     let cut = m.len() / 3;
     h.update(&m[..cut]);
+    let mut c = h.clone();
     h.update(&m[cut..]);
+    let mut out = h.finalize_fixed_reset().to_vec();
+    h.update(&m[cut..]);
+    out.extend_from_slice(&h.finalize_fixed_reset());
+    c.update(&m[cut..]);
+    out.extend_from_slice(&c.finalize_fixed());
+    let mut r = H::default();
+    r.update(&m[..m.len().min(71)]);
+    Reset::reset(&mut r);
+    r.update(m);
+    out.extend_from_slice(&r.finalize_fixed());
+    out
+}
+
+/// construction-dominated: default() + one short block + output
+fn hash_short<H: Hs>(m: &[u8]) -> Vec<u8> {
+    let mut h = H::default();
+    h.update(&m[..24]);
     h.finalize_fixed().to_vec()
 }
 
-fn stream_one<C: NewCipher + StreamCipher>(m: &[u8]) -> Vec<u8> {
+trait Sc: NewCipher + StreamCipher + StreamCipherSeek {}
+impl<T: NewCipher + StreamCipher + StreamCipherSeek> Sc for T {}
+
+fn new_cipher<C: Sc>(m: &[u8], otherkey: bool) -> C {
     let k = <C as NewCipher>::KeySize::to_usize_();
     let n = <C as NewCipher>::NonceSize::to_usize_();
-    let mut c = C::new(GenericArray::from_slice(&m[..k]), GenericArray::from_slice(&m[k..k + n]));
+    let mut key = m[..k].to_vec();
+    if otherkey {
+        for b in key.iter_mut() {
+            *b ^= 0xa5;
+        }
+    }
+    // the nonce always starts at the same offset: ChaCha (8) / Ietf (12) / XChaCha (24) share its prefix
+    C::new(GenericArray::from_slice(&key), GenericArray::from_slice(&m[32..32 + n]))
+}
+
+fn stream_any<C: Sc>(m: &[u8], otherkey: bool) -> Vec<u8> {
+    let mut c: C = new_cipher(m, otherkey);
     let mut out = m.to_vec();
     out.extend_from_slice(&[0u8; 300]);
     c.apply_keystream(&mut out[..100]);
     c.apply_keystream(&mut out[100..]);
+    // into the middle of a block that every other stream instance of this thread also visits
+    c.seek(64u64 * 3 + 17);
+    let mut b = [0u8; 90];
+    c.apply_keystream(&mut b);
+    out.extend_from_slice(&b);
+    c.seek(5u64);
+    let mut b = [0u8; 70];
+    c.apply_keystream(&mut b[..3]);
+    c.apply_keystream(&mut b[3..]);
+    out.extend_from_slice(&b);
+    let p: u64 = c.current_pos();
+    out.extend_from_slice(&p.to_le_bytes());
     out
+}
+fn stream_one<C: Sc>(m: &[u8]) -> Vec<u8> {
+    stream_any::<C>(m, false)
+}
+fn stream_other<C: Sc>(m: &[u8]) -> Vec<u8> {
+    stream_any::<C>(m, true)
+}
+fn stream_short<C: Sc>(m: &[u8]) -> Vec<u8> {
+    let mut c: C = new_cipher(m, false);
+    let mut b = [0u8; 24];
+    c.apply_keystream(&mut b[..10]);
+    c.seek(70u64);
+    c.apply_keystream(&mut b[10..]);
+    b.to_vec()
 }
 
 trait ToUsize {
@@ -59,6 +147,12 @@ impl<T: digest::generic_array::typenum::Unsigned> ToUsize for T {
 }
 
 type AlgFn = fn(&[u8]) -> Vec<u8>;
+struct Alg {
+    name: &'static str,
+    f: AlgFn,
+    /// which message: own index for hashes, FAM_STREAM for every stream cipher
+    fam: usize,
+}
 
 fn tf512(m: &[u8]) -> Vec<u8> {
     let c = threefish_cipher::Threefish512::with_tweak(GenericArray::from_slice(&m[..64]), 1, 2);
@@ -67,38 +161,90 @@ fn tf512(m: &[u8]) -> Vec<u8> {
     b.to_vec()
 }
 
+macro_rules! skein_list {
+    ($m:ident) => {
+        $m!(
+            ("Skein256-128", Skein256<U16>), ("Skein256-160", Skein256<U20>), ("Skein256-192", Skein256<U24>),
+            ("Skein256-224", Skein256<U28>), ("Skein256-256", Skein256<U32>), ("Skein256-384", Skein256<U48>),
+            ("Skein256-512", Skein256<U64>),
+            ("Skein512-128", Skein512<U16>), ("Skein512-160", Skein512<U20>), ("Skein512-224", Skein512<U28>),
+            ("Skein512-256", Skein512<U32>), ("Skein512-384", Skein512<U48>), ("Skein512-512", Skein512<U64>),
+            ("Skein1024-128", Skein1024<U16>), ("Skein1024-224", Skein1024<U28>), ("Skein1024-256", Skein1024<U32>),
+            ("Skein1024-384", Skein1024<U48>), ("Skein1024-512", Skein1024<U64>), ("Skein1024-1024", Skein1024<U128>)
+        )
+    };
+}
+
 /// Groestl first: its six lazy_static cells are initialised by the first calls
-fn algs() -> Vec<(&'static str, AlgFn)> {
+fn algs() -> Vec<Alg> {
     use blake_hash::{Blake224, Blake256, Blake384, Blake512};
     use c2_chacha::{ChaCha12, ChaCha20, ChaCha8, Ietf, XChaCha12, XChaCha20, XChaCha8};
     use groestl_aesni::{Groestl224, Groestl256, Groestl384, Groestl512};
     use jh_x86_64::{Jh224, Jh256, Jh384, Jh512};
     use skein_hash::{Skein1024, Skein256, Skein512};
-    vec![
-        ("Groestl256", hash_one::<Groestl256> as AlgFn),
-        ("Groestl512", hash_one::<Groestl512>),
-        ("Groestl224", hash_one::<Groestl224>),
-        ("Groestl384", hash_one::<Groestl384>),
-        ("Jh224", hash_one::<Jh224>),
-        ("Jh256", hash_one::<Jh256>),
-        ("Jh384", hash_one::<Jh384>),
-        ("Jh512", hash_one::<Jh512>),
-        ("Blake224", hash_one::<Blake224>),
-        ("Blake256", hash_one::<Blake256>),
-        ("Blake384", hash_one::<Blake384>),
-        ("Blake512", hash_one::<Blake512>),
-        ("Skein256", hash_one::<Skein256<U32>>),
-        ("Skein512", hash_one::<Skein512<U64>>),
-        ("Skein1024", hash_one::<Skein1024<U128>>),
-        ("ChaCha8", stream_one::<ChaCha8>),
-        ("ChaCha12", stream_one::<ChaCha12>),
-        ("ChaCha20", stream_one::<ChaCha20>),
-        ("Ietf", stream_one::<Ietf>),
-        ("XChaCha8", stream_one::<XChaCha8>),
-        ("XChaCha12", stream_one::<XChaCha12>),
-        ("XChaCha20", stream_one::<XChaCha20>),
-        ("Threefish512", tf512),
-    ]
+    let mut v: Vec<(&'static str, AlgFn, bool)> = vec![
+        ("Groestl256", hash_one::<Groestl256> as AlgFn, false),
+        ("Groestl512", hash_one::<Groestl512>, false),
+        ("Groestl224", hash_one::<Groestl224>, false),
+        ("Groestl384", hash_one::<Groestl384>, false),
+        ("Jh224", hash_one::<Jh224>, false),
+        ("Jh256", hash_one::<Jh256>, false),
+        ("Jh384", hash_one::<Jh384>, false),
+        ("Jh512", hash_one::<Jh512>, false),
+        ("Blake224", hash_one::<Blake224>, false),
+        ("Blake256", hash_one::<Blake256>, false),
+        ("Blake384", hash_one::<Blake384>, false),
+        ("Blake512", hash_one::<Blake512>, false),
+    ];
+    macro_rules! sk {
+        ($(($n:expr, $t:ty)),*) => { $( v.push(($n, hash_one::<$t> as AlgFn, false)); )* };
+    }
+    skein_list!(sk);
+    v.extend_from_slice(&[
+        ("ChaCha8", stream_one::<ChaCha8> as AlgFn, true),
+        ("ChaCha8-otherkey", stream_other::<ChaCha8>, true),
+        ("ChaCha12", stream_one::<ChaCha12>, true),
+        ("ChaCha12-otherkey", stream_other::<ChaCha12>, true),
+        ("ChaCha20", stream_one::<ChaCha20>, true),
+        ("ChaCha20-otherkey", stream_other::<ChaCha20>, true),
+        ("Ietf", stream_one::<Ietf>, true),
+        ("Ietf-otherkey", stream_other::<Ietf>, true),
+        ("XChaCha8", stream_one::<XChaCha8>, true),
+        ("XChaCha12", stream_one::<XChaCha12>, true),
+        ("XChaCha20", stream_one::<XChaCha20>, true),
+        ("XChaCha20-otherkey", stream_other::<XChaCha20>, true),
+        ("XChaCha8-otherkey", stream_other::<XChaCha8>, true),
+        ("Threefish512", tf512, false),
+    ]);
+    v.into_iter().enumerate().map(|(j, (name, f, stream))| Alg { name, f, fam: if stream { FAM_STREAM } else { j } }).collect()
+}
+
+/// the hammer phase: short, construction-dominated operations
+fn hammer_algs() -> Vec<Alg> {
+    use blake_hash::Blake256;
+    use c2_chacha::{ChaCha12, ChaCha20, ChaCha8, Ietf, XChaCha12, XChaCha20, XChaCha8};
+    use groestl_aesni::{Groestl256, Groestl512};
+    use jh_x86_64::Jh256;
+    use skein_hash::{Skein1024, Skein256, Skein512};
+    let mut v: Vec<(&'static str, AlgFn, bool)> = Vec::new();
+    macro_rules! sk {
+        ($(($n:expr, $t:ty)),*) => { $( v.push(($n, hash_short::<$t> as AlgFn, false)); )* };
+    }
+    skein_list!(sk);
+    v.extend_from_slice(&[
+        ("Groestl256", hash_short::<Groestl256> as AlgFn, false),
+        ("Groestl512", hash_short::<Groestl512>, false),
+        ("Jh256", hash_short::<Jh256>, false),
+        ("Blake256", hash_short::<Blake256>, false),
+        ("XChaCha20", stream_short::<XChaCha20>, true),
+        ("XChaCha8", stream_short::<XChaCha8>, true),
+        ("XChaCha12", stream_short::<XChaCha12>, true),
+        ("ChaCha20", stream_short::<ChaCha20>, true),
+        ("ChaCha8", stream_short::<ChaCha8>, true),
+        ("ChaCha12", stream_short::<ChaCha12>, true),
+        ("Ietf", stream_short::<Ietf>, true),
+    ]);
+    v.into_iter().enumerate().map(|(j, (name, f, stream))| Alg { name, f, fam: if stream { FAM_STREAM } else { 500 + j } }).collect()
 }
 
 #[cfg(feature = "h1")]
@@ -127,14 +273,31 @@ fn order(mode: usize, first: usize, t: usize, n: usize) -> Vec<usize> {
     }
 }
 
+/// `ref --which cold|hammer --index j`: ONE algorithm, nothing else in the process.
+/// `ref --which seq --dir 0|1`: all of them one after the other (forwards / backwards), one thread.
 fn reference(a: &Args) {
     let seed = a.u64("seed", 1);
     set_level(a.u64("level", 0) as u8);
-    let al = algs();
+    let which = a.str("which", "seq");
     let mut s = String::new();
-    for (j, (_, f)) in al.iter().enumerate() {
-        for v in 0..VARIANTS {
-            s.push_str(&format!("{} {} {}\n", j, v, hex(&f(&msg(j, v, seed)))));
+    match which.as_str() {
+        "cold" | "hammer" => {
+            let al = if which == "cold" { algs() } else { hammer_algs() };
+            let j = a.u64("index", 0) as usize;
+            for v in 0..VARIANTS {
+                s.push_str(&format!("{} {} {}\n", j, v, fp(&(al[j].f)(&msg(al[j].fam, v, seed)))));
+            }
+        }
+        _ => {
+            let backwards = a.u64("dir", 0) == 1;
+            for (tag, al) in [("C", algs()), ("H", hammer_algs())] {
+                let idx: Vec<usize> = if backwards { (0..al.len()).rev().collect() } else { (0..al.len()).collect() };
+                for v in 0..VARIANTS {
+                    for &j in &idx {
+                        s.push_str(&format!("{} {} {} {}\n", tag, j, v, fp(&(al[j].f)(&msg(al[j].fam, v, seed)))));
+                    }
+                }
+            }
         }
     }
     print!("{}", s);
@@ -145,6 +308,7 @@ fn worker(a: &Args) {
     let threads = a.u64("threads", 2) as usize;
     let mode = a.u64("mode", 0) as usize;
     let first = a.u64("first", 0) as usize;
+    let hammer = a.u64("hammer", 0) as usize;
     set_level(a.u64("level", 0) as u8);
     // nothing of the crates under test has been called in this process yet
     let n = algs().len();
@@ -154,26 +318,46 @@ fn worker(a: &Args) {
         let bar = bar.clone();
         hs.push(std::thread::spawn(move || {
             let al = algs();
+            let ha = hammer_algs();
             let ord = order(mode, first % n, t, n);
             // inputs are prepared before the barrier so that the first thing after it is the call
-            let inputs: Vec<Vec<u8>> = ord.iter().map(|&j| msg(j, t % VARIANTS, seed)).collect();
+            let inputs: Vec<Vec<u8>> = ord.iter().map(|&j| msg(al[j].fam, t % VARIANTS, seed)).collect();
+            let hinputs: Vec<Vec<u8>> = ha.iter().map(|x| msg(x.fam, t % VARIANTS, seed)).collect();
             bar.wait();
             let mut res = Vec::new();
             for (k, &j) in ord.iter().enumerate() {
-                res.push((j, (al[j].1)(&inputs[k])));
+                res.push((j, (al[j].f)(&inputs[k])));
             }
-            res
+            // hammer: all threads go round the short operations at the same time, each from another offset;
+            // per algorithm the DISTINCT results are kept (one, unless something went wrong once)
+            let iters = if hammer == 0 { 0 } else { (hammer / threads).max(2) };
+            let mut distinct: Vec<Vec<Vec<u8>>> = vec![Vec::new(); ha.len()];
+            for r in 0..iters {
+                for k in 0..ha.len() {
+                    let j = (k + 5 * t + r) % ha.len();
+                    let o = (ha[j].f)(&hinputs[j]);
+                    if !distinct[j].contains(&o) {
+                        distinct[j].push(o);
+                    }
+                }
+            }
+            (res, distinct)
         }));
     }
     let mut s = String::new();
     for (t, h) in hs.into_iter().enumerate() {
         match h.join() {
-            Ok(res) => {
+            Ok((res, distinct)) => {
                 for (j, r) in res {
-                    s.push_str(&format!("{} {} {}\n", t, j, hex(&r)));
+                    s.push_str(&format!("C {} {} {}\n", t, j, fp(&r)));
+                }
+                for (j, ds) in distinct.iter().enumerate() {
+                    for d in ds {
+                        s.push_str(&format!("H {} {} {}\n", t, j, fp(d)));
+                    }
                 }
             }
-            Err(_) => s.push_str(&format!("{} panic\n", t)),
+            Err(_) => s.push_str(&format!("P {} panic\n", t)),
         }
     }
     print!("{}", s);
@@ -183,41 +367,106 @@ fn worker(a: &Args) {
 // interleaving of instances in one thread
 // ---------------------------------------------------------------------------------------------
 
+#[derive(Clone, Debug)]
+enum Op {
+    Feed(Vec<u8>),
+    /// stream: seek(pos). hash: ignored position, acts as Reset
+    Seek(u64),
+    /// hash: reset(). stream: seek(0)
+    Reset,
+    /// hash: continue on a clone, the original is finalised into the output. stream: current_pos into the output
+    Clone,
+    /// hash: finalize_reset into the output, object reused. stream: current_pos into the output
+    FinalizeReset,
+}
+fn op_name(o: &Op) -> String {
+    match o {
+        Op::Feed(d) => format!("feed{}", d.len()),
+        Op::Seek(p) => format!("seek{}", p),
+        Op::Reset => "reset".into(),
+        Op::Clone => "clone".into(),
+        Op::FinalizeReset => "finalize_reset".into(),
+    }
+}
+
 trait Inst {
-    fn feed(&mut self, data: &[u8]);
+    fn op(&mut self, o: &Op);
     fn finish(self: Box<Self>) -> Vec<u8>;
 }
-struct HashI<H>(H);
-impl<H: Update + FixedOutput + Default> Inst for HashI<H> {
-    fn feed(&mut self, data: &[u8]) {
-        self.0.update(data)
+struct HashI<H> {
+    h: H,
+    out: Vec<u8>,
+}
+impl<H: Hs> Inst for HashI<H> {
+    fn op(&mut self, o: &Op) {
+        match o {
+            Op::Feed(d) => self.h.update(d),
+            Op::Seek(_) | Op::Reset => Reset::reset(&mut self.h),
+            Op::Clone => {
+                let c = self.h.clone();
+                let old = std::mem::replace(&mut self.h, c);
+                self.out.extend_from_slice(&old.finalize_fixed());
+            }
+            Op::FinalizeReset => {
+                let d = self.h.finalize_fixed_reset();
+                self.out.extend_from_slice(&d);
+            }
+        }
     }
     fn finish(self: Box<Self>) -> Vec<u8> {
-        self.0.finalize_fixed().to_vec()
+        let HashI { h, mut out } = *self;
+        out.extend_from_slice(&h.finalize_fixed());
+        out
     }
 }
 struct CipherI<C> {
     c: C,
     out: Vec<u8>,
 }
-impl<C: StreamCipher> Inst for CipherI<C> {
-    fn feed(&mut self, data: &[u8]) {
-        let mut b = data.to_vec();
-        self.c.apply_keystream(&mut b);
-        self.out.extend_from_slice(&b);
+impl<C: Sc> Inst for CipherI<C> {
+    fn op(&mut self, o: &Op) {
+        match o {
+            Op::Feed(d) => {
+                let mut b = d.to_vec();
+                self.c.apply_keystream(&mut b);
+                self.out.extend_from_slice(&b);
+            }
+            Op::Seek(p) => self.c.seek(*p),
+            Op::Reset => self.c.seek(0u64),
+            Op::Clone | Op::FinalizeReset => {
+                let p: u64 = self.c.current_pos();
+                self.out.extend_from_slice(&p.to_le_bytes());
+            }
+        }
     }
     fn finish(self: Box<Self>) -> Vec<u8> {
         self.out
     }
 }
 
-const KINDS: usize = 22;
+const KIND_NAMES: [&str; 38] = [
+    "Groestl224", "Groestl256", "Groestl384", "Groestl512", "Jh224", "Jh256", "Jh384", "Jh512", "Blake224", "Blake256",
+    "Blake384", "Blake512", "Skein256-128", "Skein256-160", "Skein256-224", "Skein256-256", "Skein256-384", "Skein256-512",
+    "Skein512-128", "Skein512-224", "Skein512-256", "Skein512-384", "Skein512-512", "Skein1024-128", "Skein1024-224",
+    "Skein1024-256", "Skein1024-384", "Skein1024-512", "Skein1024-1024", "ChaCha8", "ChaCha12", "ChaCha20", "Ietf", "XChaCha8",
+    "XChaCha12", "XChaCha20", "Skein256-192", "Skein512-160",
+];
+const KINDS: usize = KIND_NAMES.len();
+/// families whose members share process-wide or per-thread structure if anything does
+const FAMILIES: [&[usize]; 7] = [
+    &[12, 13, 14, 15, 16, 17, 36],     // Skein-256 with seven output sizes
+    &[18, 19, 20, 21, 22, 37],         // Skein-512
+    &[23, 24, 25, 26, 27, 28],         // Skein-1024
+    &[33, 34, 35],                     // XChaCha 8/12/20
+    &[29, 30, 31, 32],                 // ChaCha 8/12/20, Ietf
+    &[29, 30, 31, 32, 33, 34, 35],     // every stream type
+    &[0, 1, 2, 3],                     // Groestl
+];
 fn kind_name(k: usize) -> &'static str {
-    [
-        "Groestl224", "Groestl256", "Groestl384", "Groestl512", "Jh224", "Jh256", "Jh384", "Jh512", "Blake224",
-        "Blake256", "Blake384", "Blake512", "Skein256", "Skein512", "Skein1024", "ChaCha8", "ChaCha12", "ChaCha20",
-        "Ietf", "XChaCha8", "XChaCha12", "XChaCha20",
-    ][k]
+    KIND_NAMES[k]
+}
+fn is_stream(k: usize) -> bool {
+    (29..=35).contains(&k)
 }
 fn make(kind: usize, keymat: &[u8]) -> Box<dyn Inst> {
     use blake_hash::{Blake224, Blake256, Blake384, Blake512};
@@ -227,7 +476,7 @@ fn make(kind: usize, keymat: &[u8]) -> Box<dyn Inst> {
     use skein_hash::{Skein1024, Skein256, Skein512};
     macro_rules! h {
         ($t:ty) => {
-            Box::new(HashI(<$t>::default()))
+            Box::new(HashI { h: <$t>::default(), out: Vec::new() })
         };
     }
     macro_rules! c {
@@ -252,76 +501,153 @@ fn make(kind: usize, keymat: &[u8]) -> Box<dyn Inst> {
         9 => h!(Blake256),
         10 => h!(Blake384),
         11 => h!(Blake512),
-        12 => h!(Skein256<U32>),
-        13 => h!(Skein512<U64>),
-        14 => h!(Skein1024<U128>),
-        15 => c!(ChaCha8),
-        16 => c!(ChaCha12),
-        17 => c!(ChaCha20),
-        18 => c!(Ietf),
-        19 => c!(XChaCha8),
-        20 => c!(XChaCha12),
-        _ => c!(XChaCha20),
+        12 => h!(Skein256<U16>),
+        13 => h!(Skein256<U20>),
+        14 => h!(Skein256<U28>),
+        15 => h!(Skein256<U32>),
+        16 => h!(Skein256<U48>),
+        17 => h!(Skein256<U64>),
+        18 => h!(Skein512<U16>),
+        19 => h!(Skein512<U28>),
+        20 => h!(Skein512<U32>),
+        21 => h!(Skein512<U48>),
+        22 => h!(Skein512<U64>),
+        23 => h!(Skein1024<U16>),
+        24 => h!(Skein1024<U28>),
+        25 => h!(Skein1024<U32>),
+        26 => h!(Skein1024<U48>),
+        27 => h!(Skein1024<U64>),
+        28 => h!(Skein1024<U128>),
+        29 => c!(ChaCha8),
+        30 => c!(ChaCha12),
+        31 => c!(ChaCha20),
+        32 => c!(Ietf),
+        33 => c!(XChaCha8),
+        34 => c!(XChaCha12),
+        35 => c!(XChaCha20),
+        36 => h!(Skein256<U24>),
+        _ => h!(Skein512<U20>),
     }
 }
 
 struct Round {
     kinds: Vec<usize>,
+    /// which of the round's two keys / two nonces the instance uses
+    keysel: Vec<(usize, usize)>,
     keymat: Vec<Vec<u8>>,
-    chunks: Vec<Vec<Vec<u8>>>,
+    ops: Vec<Vec<Op>>,
     sched: Vec<usize>,
+    family_round: bool,
 }
+
+const SEEKS: [u64; 10] = [17, 63, 65, 64 * 3 + 17, 200, 64 * 7 + 63, 1000, 64, 0, 64 * 3 + 40];
 
 fn gen_round(rng: &mut Rng) -> Round {
     let k = rng.range(2, 6) as usize;
-    // same type twice is the interesting case: bias towards it
-    let mut kinds: Vec<usize> = (0..k).map(|_| rng.below(KINDS as u64) as usize).collect();
-    if rng.chance(1, 2) {
+    let family_round = rng.chance(2, 5);
+    let mut kinds: Vec<usize> = if family_round {
+        let fam = *rng.pick(&FAMILIES);
+        (0..k).map(|_| *rng.pick(fam)).collect()
+    } else {
+        (0..k).map(|_| rng.below(KINDS as u64) as usize).collect()
+    };
+    // same type twice is an interesting case as well
+    if rng.chance(1, 3) {
         kinds[1] = kinds[0];
     }
-    let keymat: Vec<Vec<u8>> = (0..k).map(|_| { let mut v = vec![0u8; 64]; rng.fill(&mut v); v }).collect();
-    let mut chunks = Vec::new();
+    // two keys and two nonces per round: same key+nonce under another type alias, other key with the same nonce
+    let keys: Vec<Vec<u8>> = (0..2).map(|_| rng.bytes(32)).collect();
+    let nonces: Vec<Vec<u8>> = (0..2).map(|_| rng.bytes(32)).collect();
+    let keysel: Vec<(usize, usize)> = (0..k).map(|_| (rng.below(2) as usize, if rng.chance(3, 4) { 0 } else { 1 })).collect();
+    let keymat: Vec<Vec<u8>> = keysel.iter().map(|&(a, b)| { let mut v = keys[a].clone(); v.extend_from_slice(&nonces[b]); v }).collect();
+    // three seek positions per round, shared by its instances
+    let seeks: Vec<u64> = (0..3).map(|_| *rng.pick(&SEEKS)).collect();
+    let mut ops = Vec::new();
     let mut sched = Vec::new();
     for i in 0..k {
         let n = rng.range(1, 8) as usize;
-        let mut cs = Vec::new();
+        let mut os = Vec::new();
         for _ in 0..n {
-            let len = *rng.pick(&[0usize, 1, 17, 63, 64, 65, 127, 128, 129, 200, 256, 300, 300, 1024, 2100]) + rng.below(3) as usize;
-            let mut c = vec![0u8; len];
-            rng.fill(&mut c);
-            cs.push(c);
+            let r = rng.below(100);
+            let o = if r < 62 {
+                let len = *rng.pick(&[0usize, 1, 17, 63, 64, 65, 127, 128, 129, 200, 256, 300, 300, 1024, 2100]) + rng.below(3) as usize;
+                Op::Feed(rng.bytes(len))
+            } else if r < 76 {
+                Op::Seek(*rng.pick(&seeks))
+            } else if r < 84 {
+                Op::Reset
+            } else if r < 92 {
+                Op::Clone
+            } else {
+                Op::FinalizeReset
+            };
+            os.push(o);
             sched.push(i);
         }
-        chunks.push(cs);
+        ops.push(os);
     }
     // random interleaving that keeps each instance's own order
     for i in (1..sched.len()).rev() {
         let j = rng.below(i as u64 + 1) as usize;
         sched.swap(i, j);
     }
-    Round { kinds, keymat, chunks, sched }
+    Round { kinds, keysel, keymat, ops, sched, family_round }
 }
 
+/// (interleaved, one at a time): instances of the interleaved run are created at their first operation
 fn run_round(r: &Round) -> (Vec<Vec<u8>>, Vec<Vec<u8>>) {
     let k = r.kinds.len();
-    // interleaved
-    let mut insts: Vec<Box<dyn Inst>> = (0..k).map(|i| make(r.kinds[i], &r.keymat[i])).collect();
+    let mut insts: Vec<Option<Box<dyn Inst>>> = (0..k).map(|_| None).collect();
     let mut next = vec![0usize; k];
     for &i in &r.sched {
-        insts[i].feed(&r.chunks[i][next[i]]);
+        if insts[i].is_none() {
+            insts[i] = Some(make(r.kinds[i], &r.keymat[i]));
+        }
+        insts[i].as_mut().unwrap().op(&r.ops[i][next[i]]);
         next[i] += 1;
     }
-    let a: Vec<Vec<u8>> = insts.into_iter().map(|x| x.finish()).collect();
-    // one at a time
-    let mut b = Vec::new();
-    for i in 0..k {
-        let mut x = make(r.kinds[i], &r.keymat[i]);
-        for c in &r.chunks[i] {
-            x.feed(c);
-        }
-        b.push(x.finish());
-    }
+    let a: Vec<Vec<u8>> = insts.into_iter().map(|x| x.unwrap().finish()).collect();
+    let b = (0..k).map(|i| run_alone(r, i)).collect();
     (a, b)
+}
+
+fn run_alone(r: &Round, i: usize) -> Vec<u8> {
+    let mut x = make(r.kinds[i], &r.keymat[i]);
+    for o in &r.ops[i] {
+        x.op(o);
+    }
+    x.finish()
+}
+
+/// unrelated traffic between two reference instances: every stream type with a key and nonce of its own, seeking
+/// into the middle of a far block (a one-entry cache of anything a stream instance leaves behind is overwritten)
+fn scrub(rng: &mut Rng) {
+    let km = rng.bytes(64);
+    for kind in 29..=35 {
+        let mut x = make(kind, &km);
+        x.op(&Op::Seek(64 * 100_000 + 1 + rng.below(60)));
+        x.op(&Op::Feed(vec![0u8; 3]));
+        x.finish();
+    }
+}
+
+/// `ref-rounds`: the same rounds (same seed), evaluated LAST ROUND FIRST, instances in reverse order, one at
+/// a time, unrelated traffic in between; prints `round instance fingerprint`
+fn ref_rounds(a: &Args) {
+    let seed = a.u64("seed", 1);
+    let rounds = a.u64("rounds", 300) as usize;
+    set_level(a.u64("level", 0) as u8);
+    let mut rng = Rng::new(seed ^ 0x1c18);
+    let all: Vec<Round> = (0..rounds).map(|_| gen_round(&mut rng)).collect();
+    let mut srng = Rng::new(seed ^ 0x5c2b);
+    let mut s = String::new();
+    for (ri, r) in all.iter().enumerate().rev() {
+        for i in (0..r.kinds.len()).rev() {
+            scrub(&mut srng);
+            s.push_str(&format!("{} {} {}\n", ri, i, fp(&run_alone(r, i))));
+        }
+    }
+    print!("{}", s);
 }
 
 // ---------------------------------------------------------------------------------------------
@@ -339,31 +665,76 @@ fn spawn_self(args: &[String]) -> Result<String, String> {
     Ok(String::from_utf8_lossy(&out.stdout).to_string())
 }
 
+fn sv(xs: &[&str]) -> Vec<String> {
+    xs.iter().map(|x| x.to_string()).collect()
+}
+
 fn conc(a: &Args) {
     let seed = a.u64("seed", 1);
     let procs = a.u64("procs", 50) as usize;
     let rounds = a.u64("rounds", 300) as usize;
     let level = a.u64("level", 0);
     let par = a.u64("parallel", 4) as usize;
+    let hammer = a.u64("hammer", 192);
     let al = algs();
+    let ha = hammer_algs();
     let n = al.len();
     let mut direct: Vec<String> = Vec::new();
     let mut nfail = 0usize;
+    let (seed_s, level_s) = (seed.to_string(), level.to_string());
 
-    // (1) sequential reference from a separate single-threaded process
-    let r = spawn_self(&["ref".into(), "--seed".into(), seed.to_string(), "--level".into(), level.to_string()])
-        .expect("reference process failed");
-    let mut refs: BTreeMap<(usize, usize), String> = BTreeMap::new();
-    for l in r.lines() {
-        let p: Vec<&str> = l.split(' ').collect();
-        refs.insert((p[0].parse().unwrap(), p[1].parse().unwrap()), p[2].to_string());
+    // (1) reference: every algorithm in a process of its own
+    let mut refs: BTreeMap<(char, usize, usize), String> = BTreeMap::new();
+    let jobs: Vec<(char, usize)> = (0..n).map(|j| ('C', j)).chain((0..ha.len()).map(|j| ('H', j))).collect();
+    for batch in jobs.chunks(8) {
+        let hs: Vec<_> = batch
+            .iter()
+            .map(|&(tag, j)| {
+                let args = sv(&["ref", "--seed", &seed_s, "--level", &level_s, "--which", if tag == 'C' { "cold" } else { "hammer" }, "--index", &j.to_string()]);
+                std::thread::spawn(move || spawn_self(&args))
+            })
+            .collect();
+        for (h, &(tag, j)) in hs.into_iter().zip(batch.iter()) {
+            let out = h.join().unwrap().expect("reference process failed");
+            for l in out.lines() {
+                let p: Vec<&str> = l.split(' ').collect();
+                assert_eq!(p[0].parse::<usize>().unwrap(), j);
+                refs.insert((tag, j, p[1].parse().unwrap()), p[2].to_string());
+            }
+        }
     }
-    assert_eq!(refs.len(), n * VARIANTS);
-    // the reference must itself be reproducible (second cold process)
-    let r2 = spawn_self(&["ref".into(), "--seed".into(), seed.to_string(), "--level".into(), level.to_string()]).unwrap();
-    if r2 != r {
-        nfail += 1;
-        direct.push(format!("{{\"kind\":\"sequential reference not reproducible across processes\",\"seed\":{}}}", seed));
+    assert_eq!(refs.len(), (n + ha.len()) * VARIANTS);
+    // whole sequences in one single-threaded process, forwards and backwards, against the isolated results
+    let mut seq_compared = 0usize;
+    for dir in 0..2 {
+        let r = spawn_self(&sv(&["ref", "--seed", &seed_s, "--level", &level_s, "--which", "seq", "--dir", &dir.to_string()]));
+        match r {
+            Err(e) => {
+                nfail += 1;
+                direct.push(format!("{{\"kind\":\"single-threaded sequence of all algorithms\",\"direction\":{},\"seed\":{},\"outcome\":{}}}", dir, seed, jstr(&e)));
+            }
+            Ok(out) => {
+                for l in out.lines() {
+                    let p: Vec<&str> = l.split(' ').collect();
+                    let tag = p[0].chars().next().unwrap();
+                    let (j, v): (usize, usize) = (p[1].parse().unwrap(), p[2].parse().unwrap());
+                    seq_compared += 1;
+                    let want = &refs[&(tag, j, v)];
+                    if want != p[3] {
+                        nfail += 1;
+                        if direct.len() < 10 {
+                            direct.push(format!(
+                                "{{\"kind\":\"result depends on what ran before in the same single thread\",\"sequence\":\"all algorithms {}\",\"phase\":{},\"algorithm\":{},\"input_variant\":{},\"seed\":{},\"level\":{},\"in_sequence\":{},\"in_a_process_of_its_own\":{}}}",
+                                if dir == 0 { "forwards" } else { "backwards" },
+                                jstr(if tag == 'C' { "full" } else { "short" }),
+                                jstr(if tag == 'C' { al[j].name } else { ha[j].name }),
+                                v, seed, level, jstr(p[3]), jstr(want)
+                            ));
+                        }
+                    }
+                }
+            }
+        }
     }
 
     // (2) cold multi-threaded processes
@@ -372,6 +743,7 @@ fn conc(a: &Args) {
     let mut mode_hist: BTreeMap<usize, usize> = BTreeMap::new();
     let mut first_hist: BTreeMap<&str, usize> = BTreeMap::new();
     let mut compared = 0usize;
+    let mut hammer_compared = 0usize;
     let mut configs = HashSet::new();
     let mut samples = Vec::new();
     let mut rng = Rng::new(seed ^ 0xc018);
@@ -389,21 +761,19 @@ fn conc(a: &Args) {
         let hs: Vec<_> = batch
             .iter()
             .map(|&(t, mode, first)| {
-                std::thread::spawn(move || {
-                    spawn_self(&[
-                        "worker".into(), "--seed".into(), seed.to_string(), "--threads".into(), t.to_string(),
-                        "--mode".into(), mode.to_string(), "--first".into(), first.to_string(),
-                        "--level".into(), level.to_string(),
-                    ])
-                })
+                let args = sv(&[
+                    "worker", "--seed", &seed_s, "--threads", &t.to_string(), "--mode", &mode.to_string(), "--first", &first.to_string(),
+                    "--level", &level_s, "--hammer", &hammer.to_string(),
+                ]);
+                std::thread::spawn(move || spawn_self(&args))
             })
             .collect();
         for (h, &(t, mode, first)) in hs.into_iter().zip(batch.iter()) {
             *thread_hist.entry(t).or_insert(0) += 1;
             *mode_hist.entry(mode).or_insert(0) += 1;
-            *first_hist.entry(al[first].0).or_insert(0) += 1;
+            *first_hist.entry(al[first].name).or_insert(0) += 1;
             configs.insert((t, mode, first));
-            let desc = format!("\"threads\":{},\"mode\":{},\"first_algorithm\":{},\"seed\":{},\"level\":{}", t, mode, jstr(al[first].0), seed, level);
+            let desc = format!("\"threads\":{},\"mode\":{},\"first_algorithm\":{},\"seed\":{},\"level\":{},\"hammer\":{}", t, mode, jstr(al[first].name), seed, level, hammer);
             match h.join().unwrap() {
                 Err(e) => {
                     nfail += 1;
@@ -412,38 +782,45 @@ fn conc(a: &Args) {
                     }
                 }
                 Ok(out) => {
-                    let mut seen = 0usize;
+                    let (mut seen, mut hseen) = (0usize, 0usize);
                     for l in out.lines() {
                         let p: Vec<&str> = l.split(' ').collect();
-                        if p.len() == 2 {
+                        if p[0] == "P" {
                             nfail += 1;
                             if direct.len() < 10 {
-                                direct.push(format!("{{{},\"thread\":{},\"outcome\":\"panic\"}}", desc, p[0]));
+                                direct.push(format!("{{{},\"thread\":{},\"outcome\":\"panic\"}}", desc, p[1]));
                             }
                             continue;
                         }
-                        let (th, j): (usize, usize) = (p[0].parse().unwrap(), p[1].parse().unwrap());
-                        seen += 1;
-                        compared += 1;
-                        let want = &refs[&(j, th % VARIANTS)];
-                        if want != p[2] {
+                        let tag = p[0].chars().next().unwrap();
+                        let (th, j): (usize, usize) = (p[1].parse().unwrap(), p[2].parse().unwrap());
+                        if tag == 'C' {
+                            seen += 1;
+                            compared += 1;
+                        } else {
+                            hseen += 1;
+                            hammer_compared += 1;
+                        }
+                        let want = &refs[&(tag, j, th % VARIANTS)];
+                        if want != p[3] {
                             nfail += 1;
                             if direct.len() < 10 {
                                 direct.push(format!(
-                                    "{{{},\"thread\":{},\"algorithm\":{},\"input_variant\":{},\"got\":{},\"sequential\":{}}}",
-                                    desc, th, jstr(al[j].0), th % VARIANTS, jstr(p[2]), jstr(want)
+                                    "{{{},\"thread\":{},\"phase\":{},\"algorithm\":{},\"input_variant\":{},\"got\":{},\"sequential\":{}}}",
+                                    desc, th, jstr(if tag == 'C' { "first pass over all algorithms" } else { "hammer (short operations)" }),
+                                    jstr(if tag == 'C' { al[j].name } else { ha[j].name }), th % VARIANTS, jstr(p[3]), jstr(want)
                                 ));
                             }
                         }
                     }
-                    if seen != t * n {
+                    if seen != t * n || (hammer > 0 && hseen < t * ha.len()) {
                         nfail += 1;
                         if direct.len() < 10 {
-                            direct.push(format!("{{{},\"outcome\":\"{} of {} results reported\"}}", desc, seen, t * n));
+                            direct.push(format!("{{{},\"outcome\":\"{} of {} results reported ({} of {} in the hammer phase)\"}}", desc, seen, t * n, hseen, t * ha.len()));
                         }
                     }
                     if samples.len() < 2 {
-                        samples.push(format!("{{{},\"results_compared\":{},\"outcome\":\"all equal to the sequential reference\"}}", desc, seen));
+                        samples.push(format!("{{{},\"results_compared\":{},\"outcome\":\"all equal to the sequential reference\"}}", desc, seen + hseen));
                     }
                 }
             }
@@ -451,43 +828,87 @@ fn conc(a: &Args) {
     }
 
     // (3) interleavings in one thread
+    let rr = spawn_self(&sv(&["ref-rounds", "--seed", &seed_s, "--level", &level_s, "--rounds", &rounds.to_string()]));
+    let mut ref_round: BTreeMap<(usize, usize), String> = BTreeMap::new();
+    match rr {
+        Ok(out) => {
+            for l in out.lines() {
+                let p: Vec<&str> = l.split(' ').collect();
+                ref_round.insert((p[0].parse().unwrap(), p[1].parse().unwrap()), p[2].to_string());
+            }
+        }
+        Err(e) => {
+            nfail += 1;
+            direct.push(format!("{{\"kind\":\"one-at-a-time reference process for the interleaving rounds\",\"seed\":{},\"outcome\":{}}}", seed, jstr(&e)));
+        }
+    }
     let mut rng = Rng::new(seed ^ 0x1c18);
     let mut inst_hist: BTreeMap<usize, usize> = BTreeMap::new();
+    let mut op_hist: BTreeMap<&str, usize> = BTreeMap::new();
     let mut ops = 0usize;
-    let mut same_type_rounds = 0usize;
+    let (mut same_type_rounds, mut family_rounds, mut shared_key_nonce, mut otherkey_same_nonce, mut two_n_rounds) = (0usize, 0usize, 0usize, 0usize, 0usize);
     let mut distinct_rounds = HashSet::new();
     for round in 0..rounds {
         let r = gen_round(&mut rng);
         *inst_hist.entry(r.kinds.len()).or_insert(0) += 1;
         ops += r.sched.len();
+        for os in &r.ops {
+            for o in os {
+                *op_hist.entry(match o { Op::Feed(_) => "feed", Op::Seek(_) => "seek", Op::Reset => "reset", Op::Clone => "clone", Op::FinalizeReset => "finalize_reset" }).or_insert(0) += 1;
+            }
+        }
         let mut ks = r.kinds.clone();
         ks.sort();
         ks.dedup();
         if ks.len() < r.kinds.len() {
             same_type_rounds += 1;
         }
+        family_rounds += r.family_round as usize;
+        let k = r.kinds.len();
+        let (mut skn, mut okn, mut twon) = (false, false, false);
+        for i in 0..k {
+            for j in 0..i {
+                if is_stream(r.kinds[i]) && is_stream(r.kinds[j]) && r.kinds[i] != r.kinds[j] && r.keysel[i] == r.keysel[j] {
+                    skn = true;
+                }
+                if is_stream(r.kinds[i]) && is_stream(r.kinds[j]) && r.keysel[i].0 != r.keysel[j].0 && r.keysel[i].1 == r.keysel[j].1 {
+                    okn = true;
+                }
+                for f in &FAMILIES[..3] {
+                    if r.kinds[i] != r.kinds[j] && f.contains(&r.kinds[i]) && f.contains(&r.kinds[j]) {
+                        twon = true;
+                    }
+                }
+            }
+        }
+        shared_key_nonce += skn as usize;
+        otherkey_same_nonce += okn as usize;
+        two_n_rounds += twon as usize;
         distinct_rounds.insert((r.kinds.clone(), r.sched.clone()));
         let (x, y) = run_round(&r);
-        if x != y {
+        let z: Vec<Option<&String>> = (0..k).map(|i| ref_round.get(&(round, i))).collect();
+        let bad = (0..k).find(|&i| x[i] != y[i] || (!ref_round.is_empty() && z[i] != Some(&fp(&x[i]))));
+        if let Some(bad) = bad {
             nfail += 1;
             if direct.len() < 10 {
-                let bad = (0..x.len()).find(|&i| x[i] != y[i]).unwrap();
                 direct.push(format!(
-                    "{{\"kind\":\"interleaving\",\"round\":{},\"seed\":{},\"instances\":[{}],\"schedule\":{:?},\"chunk_lengths\":{:?},\"differs_on_instance\":{},\"interleaved\":{},\"one_at_a_time\":{}}}",
+                    "{{\"kind\":\"interleaving\",\"round\":{},\"seed\":{},\"instances\":[{}],\"key_and_nonce_choice\":{:?},\"schedule\":{:?},\"operations\":[{}],\"differs_on_instance\":{},\"interleaved\":{},\"one_at_a_time_same_process\":{},\"one_at_a_time_separate_process\":{}}}",
                     round,
                     seed,
                     r.kinds.iter().map(|&k| jstr(kind_name(k))).collect::<Vec<_>>().join(","),
+                    r.keysel.iter().map(|&(a, b)| vec![a, b]).collect::<Vec<_>>(),
                     r.sched,
-                    r.chunks.iter().map(|c| c.iter().map(|x| x.len()).collect::<Vec<_>>()).collect::<Vec<_>>(),
+                    r.ops.iter().map(|c| format!("[{}]", c.iter().map(|x| jstr(&op_name(x))).collect::<Vec<_>>().join(","))).collect::<Vec<_>>().join(","),
                     bad,
-                    jstr(&hex(&x[bad])),
-                    jstr(&hex(&y[bad]))
+                    jstr(&fp(&x[bad])),
+                    jstr(&fp(&y[bad])),
+                    jstr(z[bad].map(|s| s.as_str()).unwrap_or("missing"))
                 ));
             }
         }
         if round == 0 {
             samples.push(format!(
-                "{{\"kind\":\"interleaving\",\"instances\":[{}],\"schedule\":{:?},\"outcome\":\"equal to one-at-a-time\"}}",
+                "{{\"kind\":\"interleaving\",\"instances\":[{}],\"schedule\":{:?},\"outcome\":\"equal to one-at-a-time (same process and separate process)\"}}",
                 r.kinds.iter().map(|&k| jstr(kind_name(k))).collect::<Vec<_>>().join(","),
                 r.sched
             ));
@@ -495,8 +916,8 @@ fn conc(a: &Args) {
     }
     let hist = |m: &BTreeMap<usize, usize>| format!("{{{}}}", m.iter().map(|(k, v)| format!("\"{}\":{}", k, v)).collect::<Vec<_>>().join(","));
     println!(
-        "{{\"evaluations\":{},\"distinct_nontrivial\":{},\"direct_failures\":[{}],\"failing_results\":{},\"samples\":[{}],\"cold_processes\":{},\"thread_counts\":{},\"start_modes\":{},\"first_algorithm\":{{{}}},\"thread_results_compared\":{},\"algorithms\":[{}],\"reference\":\"separate single-threaded process, reproduced twice\",\"interleaving_rounds\":{},\"interleaving_instances\":{},\"interleaving_ops\":{},\"interleaving_rounds_with_two_instances_of_one_type\":{},\"backend_level\":{},\"profile\":{}}}",
-        compared + rounds,
+        "{{\"evaluations\":{},\"distinct_nontrivial\":{},\"direct_failures\":[{}],\"failing_results\":{},\"samples\":[{}],\"cold_processes\":{},\"thread_counts\":{},\"start_modes\":{},\"first_algorithm\":{{{}}},\"thread_results_compared\":{},\"hammer_results_compared\":{},\"hammer_iterations_per_process\":{},\"algorithms\":[{}],\"hammer_algorithms\":[{}],\"stream_types_share_key_and_nonce\":true,\"reference\":\"each algorithm in a single-threaded process of its own ({} processes); two whole-sequence single-threaded processes (forwards, backwards) compared with it: {} results\",\"sequence_results_compared\":{},\"interleaving_rounds\":{},\"interleaving_instances\":{},\"interleaving_ops\":{},\"interleaving_op_mix\":{{{}}},\"interleaving_rounds_with_two_instances_of_one_type\":{},\"interleaving_rounds_from_one_family\":{},\"interleaving_rounds_same_key_nonce_under_two_stream_types\":{},\"interleaving_rounds_other_key_same_nonce\":{},\"interleaving_rounds_two_output_sizes_of_one_skein_state_size\":{},\"interleaving_reference\":\"same process one at a time + separate process, rounds and instances in reverse order, unrelated stream traffic in between\",\"backend_level\":{},\"profile\":{}}}",
+        compared + hammer_compared + seq_compared + rounds,
         configs.len() + distinct_rounds.len(),
         direct.join(","),
         nfail,
@@ -506,11 +927,22 @@ fn conc(a: &Args) {
         hist(&mode_hist),
         first_hist.iter().map(|(k, v)| format!("{}:{}", jstr(k), v)).collect::<Vec<_>>().join(","),
         compared,
-        al.iter().map(|x| jstr(x.0)).collect::<Vec<_>>().join(","),
+        hammer_compared,
+        hammer,
+        al.iter().map(|x| jstr(x.name)).collect::<Vec<_>>().join(","),
+        ha.iter().map(|x| jstr(x.name)).collect::<Vec<_>>().join(","),
+        n + ha.len(),
+        seq_compared,
+        seq_compared,
         rounds,
         hist(&inst_hist),
         ops,
+        op_hist.iter().map(|(k, v)| format!("{}:{}", jstr(k), v)).collect::<Vec<_>>().join(","),
         same_type_rounds,
+        family_rounds,
+        shared_key_nonce,
+        otherkey_same_nonce,
+        two_n_rounds,
         level,
         jstr(if cfg!(debug_assertions) { "debug" } else { "release" }),
     );
@@ -519,7 +951,7 @@ fn conc(a: &Args) {
 fn main() {
     let argv: Vec<String> = std::env::args().collect();
     if argv.len() < 2 {
-        eprintln!("usage: h_conc <conc|worker|ref> [--key value]...");
+        eprintln!("usage: h_conc <conc|worker|ref|ref-rounds> [--key value]...");
         std::process::exit(2);
     }
     let args = Args::parse(&argv[2..]);
@@ -527,6 +959,7 @@ fn main() {
         "conc" => conc(&args),
         "worker" => worker(&args),
         "ref" => reference(&args),
+        "ref-rounds" => ref_rounds(&args),
         other => {
             eprintln!("unknown subcommand {}", other);
             std::process::exit(2);
